@@ -31,6 +31,12 @@ def corpus(tier, seed):
         # prior that is -inf inside the unit hypercube (disc in a box): drawn candidates are rejected by the prior
         ins_spec("disc2", s + 12, 100, max_iteration=4),
         ins_spec("rect3", s + 14, 100, max_iteration=4, kills=[400]),
+        # resampled (LARS) latent distribution: the flow has state that finalise() re-estimates after training;
+        # the weights on disk must be those of the flow used for the stored densities (checked at the resume)
+        ins_spec("gauss2", s + 17, 60, max_iteration=3, kills=[260],
+                 flow_config={"n_blocks": 2, "n_neurons": 8, "distribution": "lars"}),
+        ins_spec("gauss2", s + 18, 60, max_iteration=3, kills=[260], save_log_q=True, draw_iid_live=False,
+                 flow_config={"n_blocks": 2, "n_neurons": 8, "distribution": "lars"}),
         # with the sampler's own plots enabled (plotting_frequency 2: plots are produced before checkpoints)
         ins_spec("gauss2", s + 15, 60, max_iteration=4, plot=True, plotting_frequency=2),
         ins_spec("gauss2", s + 16, 60, max_iteration=4, plot=True, plotting_frequency=2, draw_iid_live=False,
